@@ -60,7 +60,8 @@ def minimize_case(M, m, n, rows, batch, kkind, bkind, epskind, l1kind, via="func
             xt[:] = xt[0]  # one common total intensity request must be attainable for every row
         M.values["_xt"] = xt
         Ae, be = fs.effective_model(v["A"], v.get("K"), v.get("base"), kkind)
-        return np.array([fs.predict(Ae, be, list(xt[i])) for i in range(rows)], dtype=float) * r.uniform(0.9, 1.3, size=(rows, m))
+        noise = r.uniform(0.9, 1.3, size=(rows, m)) if l1kind == "none" else 1.0  # with an L1 request keep the generating intensities feasible
+        return np.array([fs.predict(Ae, be, list(xt[i])) for i in range(rows)], dtype=float) * noise
     B = M.real("B", (rows, m), sample=_b_sample)
     W = M.real("W", (rows, m), sample=lambda r, s: r.uniform(0.5, 2.0, size=s))
     for v in np.asarray(W).ravel():
